@@ -33,14 +33,62 @@ def prepare(scratch_dir):
     return dst
 
 
+def _target(repo_copy):
+    # build output lives next to the scratch copy (removed with it): a fresh build of the crate and its dependencies
+    # takes ~10 s, and concurrent checks do not wait for each other's cargo lock
+    return os.path.join(os.path.dirname(repo_copy), 'kani-target')
+
+
+def run_batch(repo_copy, sel, jobs=8, timeout=5400):
+    """one `cargo kani` call for several harnesses (-j): returns {name: partial result} for those that SUCCEEDED;
+    anything else (failed, unparsable) is left to an individual run, which gives failed checks and the counterexample"""
+    done = {}
+    groups = {}
+    for n, i in sel:
+        groups.setdefault(i.get('features') or '', []).append((n, i))
+    for feat, items in groups.items():
+        if len(items) < 2:
+            continue
+        cmd = ['cargo', 'kani', '-p', 'rarena-allocator', '-j', str(min(jobs, len(items))), '--output-format', 'terse']
+        for n, _ in items:
+            cmd += ['--harness', n]
+        if feat:
+            cmd += ['--features', feat]
+        env = dict(os.environ, CARGO_NET_OFFLINE='true', CARGO_TARGET_DIR=_target(repo_copy))
+        t0 = time.time()
+        try:
+            p = subprocess.run(cmd, cwd=repo_copy, capture_output=True, text=True, env=env, timeout=timeout)
+        except subprocess.TimeoutExpired:
+            continue
+        out = p.stdout + p.stderr
+        cur = {}
+        lines = out.splitlines()
+        k = 0
+        while k < len(lines):
+            l = lines[k]
+            m = re.match(r'Thread (\d+): Checking harness (\S+?)\.\.\.', l)
+            if m:
+                cur[m.group(1)] = m.group(2).split('::')[-1]
+            m = re.match(r'Thread (\d+):\s*$', l)
+            if m and m.group(1) in cur:
+                blk = '\n'.join(lines[k + 1:k + 9])
+                name = cur.pop(m.group(1))
+                mm = re.search(r'\*\* (\d+) of (\d+) failed', blk)
+                vt = re.search(r'Verification Time: ([0-9.]+)s', blk)
+                if 'VERIFICATION:- SUCCESSFUL' in blk and mm and mm.group(1) == '0' and name in dict(items):
+                    done[name] = {'name': name, 'status': 'ok', 'wall_s': round(time.time() - t0, 1), 'cbmc_s': float(vt.group(1)) if vt else None,
+                                  'checks': int(mm.group(2)), 'failed_checks': '', 'cmd': ' '.join(cmd), 'playback_tests': [], 'output_tail': blk}
+            k += 1
+    return done
+
+
 def run_harness(repo_copy, name, info, timeout=1800, playback=False):
     cmd = ['cargo', 'kani', '-p', 'rarena-allocator', '--harness', name]
     if info.get('features'):
         cmd += ['--features', info['features']]
     if playback:
         cmd += ['-Z', 'concrete-playback', '--concrete-playback=inplace']
-    env = dict(os.environ, CARGO_NET_OFFLINE='true', CARGO_TARGET_DIR='/var/tmp/rarena-verif-cache/kani-target')
-    os.makedirs(env['CARGO_TARGET_DIR'], exist_ok=True)
+    env = dict(os.environ, CARGO_NET_OFFLINE='true', CARGO_TARGET_DIR=_target(repo_copy))
     t0 = time.time()
     try:
         p = subprocess.run(cmd, cwd=repo_copy, capture_output=True, text=True, env=env, timeout=timeout)
@@ -69,7 +117,7 @@ def native_replay(repo_copy, test_name, features=None, timeout=900):
     if features:
         cmd += ['--features', features]
     cmd += ['--', test_name]
-    env = dict(os.environ, CARGO_NET_OFFLINE='true', CARGO_TARGET_DIR='/var/tmp/rarena-verif-cache/kani-target')
+    env = dict(os.environ, CARGO_NET_OFFLINE='true', CARGO_TARGET_DIR=_target(repo_copy))
     try:
         p = subprocess.run(cmd, cwd=repo_copy, capture_output=True, text=True, env=env, timeout=timeout)
     except subprocess.TimeoutExpired:
@@ -86,11 +134,8 @@ def run_for_property(prop, scratch_dir, include_slow, only=None, lazy_slow=False
         return []
     rc = prepare(scratch_dir)
     results = []
-    sel.sort(key=lambda x: bool(x[1].get('slow')))
-    for n, i in sel:
-        if lazy_slow and i.get('slow') and any(r['status'] == 'failed' for r in results):
-            continue  # fallback mode: a counterexample is already in hand, the slow harnesses add nothing
-        r = run_harness(rc, n, i)
+    def one(n, i, batch):
+        r = batch.get(n) or run_harness(rc, n, i)
         r.update(kind=i['kind'], what=i['what'], props=i['props'])
         if r['status'] == 'failed':
             r2 = run_harness(rc, n, i, playback=True)
@@ -100,5 +145,16 @@ def run_for_property(prop, scratch_dir, include_slow, only=None, lazy_slow=False
             mm = re.findall(r'let concrete_vals: Vec<Vec<u8>> = vec!\[(.*?)\];', src, re.S)
             r['concrete_vals'] = [re.sub(r'\s+', ' ', x).strip() for x in mm][-3:]
             r['native'] = [native_replay(rc, t, i.get('features')) for t in r['playback_tests'][:2]]
-        results.append(r)
+        return r
+    # two phases (fast harnesses, then slow ones); the harnesses of a phase are checked in one parallel `cargo kani -j`
+    for phase in (False, True):
+        part = [(n, i) for n, i in sel if bool(i.get('slow')) == phase]
+        if not part:
+            continue
+        if phase and lazy_slow and any(r['status'] == 'failed' for r in results):
+            continue  # fallback mode: a counterexample is already in hand, the slow harnesses add nothing
+        batch = run_batch(rc, part)
+        for n, i in part:
+            results.append(one(n, i, batch))
     return results
+
